@@ -875,7 +875,10 @@ def lineStep (r : PState) : RM (LineEv × PState) := do
           let (_, s) ← liftT s.getEol
           pure (.nothing, { r with tok := s, defaultTTL := v, defaultTTLKnown := true })
     else if c = s2l "$ORIGIN" then do
-      let (n, s) ← liftT (s.getName none false none)
+      -- `fix:` commit c444c98: the argument is completed with the current origin (RFC 1035 5.1); still relative
+      -- (no origin to complete it) is a SyntaxError
+      let (n, s) ← liftT (s.getName r.currentOrigin false none)
+      if !isAbs n then .error .syntaxError else
       let (_, s) ← liftT s.getEol
       pure (.nothing, { r with tok := s, currentOrigin := some n,
                                zoneOrigin := (match r.zoneOrigin with | none => some n | some z => some z) })
